@@ -2,6 +2,8 @@
 
 package service
 
+import "github.com/mdzio/go-mqtt/message"
+
 // C05: no client's bad input or sudden disconnect can hurt the broker or other clients.
 // An accepted offender (co-subscriber of the witnesses' topic, subscribed first)
 // sends arbitrary bytes and is cut at an arbitrary point; two witness
@@ -262,4 +264,70 @@ func H05s_stalled_cut() {
 	vrtAssert("C05.publisher_answered_after_cut", vrtBytesEq(pub.peerTake(), []byte{0xD0, 0}))
 	vrtAssert("C05.publisher_stays_connected.stalled_cut", !pub.isClosed())
 	vrtReach("C05.survived_stalled_cut")
+}
+
+// H05_late_delivery: a fan-out that is held up at a slow in-process subscriber still holds the delivery
+// callback of a client that vanishes meanwhile; when the fan-out reaches that client its teardown -
+// clean or persistent session, subscription and publish at QoS 0..2 - is COMPLETE (socket closed,
+// goroutines gone, a clean session deleted). The late delivery must fail softly: the publisher keeps
+// its connection and gets its acknowledgement, and the subscribers behind the dead one in the fan-out
+// get the message (round-7 change C05-13: a deleted session's ack queues were released, so the late
+// QoS 1/2 delivery panicked in the PUBLISHER's processor).
+func H05_late_delivery() {
+	b := vrtBroker("mockSuccess")
+	slow := vrtNewInproc()
+	var dying *vrtConn
+	held := false
+	inner := slow.fn
+	slow.fn = func(m *message.PublishMessage) error {
+		if !held {
+			held = true
+			dying.peerClose()
+			vrtQuiesce() // the dying client's teardown runs to completion while the fan-out waits here
+		}
+		return inner(m)
+	}
+	b.svr.Subscribe("t", 2, &slow.fn)
+	sq := vrtByte("subqos")
+	vrtAssume(sq <= 2)
+	sq = vrtConcretizeByte(sq)
+	dying, _ = b.connect(vrtConnectPkt([]byte("d"), vrtBool("dying_clean")))
+	vrtExchange(dying, &specPkt{Typ: specSUBSCRIBE, ID: 1, Topics: [][]byte{[]byte("t")}, QoS: []byte{sq}})
+	w, _ := b.connect(vrtConnectPkt([]byte("w"), true))
+	vrtExchange(w, &specPkt{Typ: specSUBSCRIBE, ID: 1, Topics: [][]byte{[]byte("t")}, QoS: []byte{2}})
+	p, _ := b.connect(vrtConnectPkt([]byte("p"), true))
+	q := vrtByte("q")
+	vrtAssume(q <= 2)
+	q = vrtConcretizeByte(q)
+	pk := &specPkt{Typ: specPUBLISH, Flags: q << 1, Topic: []byte("t"), Payload: []byte("x")}
+	if q > 0 {
+		pk.ID = 5
+	}
+	ans := vrtExchange(p, pk)
+	if q == 2 {
+		ans = append(ans, vrtExchange(p, &specPkt{Typ: specPUBREL, Flags: 2, ID: 5})...)
+	}
+	vrtAssert("C05.harness_fanout_was_held", held)
+	vrtAssert("C05.publisher_survives_late_delivery", !p.isClosed())
+	acks, ok := vrtParse(ans)
+	switch q {
+	case 0:
+		vrtAssert("C05.publisher_acknowledged", ok && len(acks) == 0)
+	case 1:
+		vrtAssert("C05.publisher_acknowledged", ok && len(acks) == 1 && acks[0].Typ == specPUBACK && acks[0].ID == 5)
+	case 2:
+		vrtAssert("C05.publisher_acknowledged", ok && len(acks) == 2 && acks[0].Typ == specPUBREC && acks[1].Typ == specPUBCOMP)
+	}
+	got, okw := vrtParse(w.peerTake())
+	vrtAssert("C05.witness_stream_wellformed", okw)
+	vrtCheckDelivery("witness_behind_dead_client", got, true, []byte("t"), []byte("x"), q)
+	vrtCheckDelivery("slow_inproc", slow.take(), true, []byte("t"), []byte("x"), q)
+	// and the next publish finds a consistent broker
+	pk2 := &specPkt{Typ: specPUBLISH, Flags: 0, Topic: []byte("t"), Payload: []byte("y")}
+	vrtExchange(p, pk2)
+	got2, ok2 := vrtParse(w.peerTake())
+	vrtAssert("C05.witness_stream_wellformed", ok2)
+	vrtCheckDelivery("witness_next", got2, true, []byte("t"), []byte("y"), 0)
+	vrtAssert("C05.publisher_survives_late_delivery", !p.isClosed() && !w.isClosed())
+	vrtReach("C05.late_delivery")
 }
